@@ -201,10 +201,14 @@ def fork_run(fn):
     if pid == 0:
         try:
             os.close(r)
+            from vf.obs import monitor
+            cov = monitor.shared_coverage()
+            known = set(cov.hit)
             try:
-                out = pickle.dumps(("ok", fn()))
+                val = fn()
+                out = pickle.dumps(("ok", val, sorted(cov.hit - known)))
             except BaseException:
-                out = pickle.dumps(("err", traceback.format_exc()))
+                out = pickle.dumps(("err", traceback.format_exc(), []))
             with os.fdopen(w, "wb") as f:
                 f.write(out)
         finally:
@@ -215,7 +219,10 @@ def fork_run(fn):
     os.waitpid(pid, 0)
     if not data:
         return ("err", "child died without a result")
-    return pickle.loads(data)
+    st, val, lines = pickle.loads(data)
+    from vf.obs import monitor
+    monitor.shared_coverage().hit.update(lines)
+    return st, val
 
 
 def solo(member):
